@@ -1,4 +1,4 @@
-import Rare.Proofs.C16Utf8
+import Rare.Proofs.C16Views
 import Rare.Gen.C16
 /-!
 Property C16: the JSON views `{.}`, `{#}`, `{.#}` of a match are valid, faithful and deterministic.
@@ -6,6 +6,13 @@ Property C16: the JSON views `{.}`, `{#}`, `{.#}` of a match are valid, faithful
 `Rare.Gen.C16.*` is regenerated from pkg/minijson/minijson.go on every run; the first group of
 theorems is about those generated definitions.  The model (`Rare/Model/C16.lean`) mirrors the code
 after the `fix:` commits listed in known_findings/C16.json.
+
+Quantification.  A Go map is its list of entries in the order one `range` produced them; every
+theorem about a name table holds for every such order (`order`, `o₁ o₂`, `σ`).  `GoTyped` collects the
+typing facts of Go values (`int` group numbers, `int` slice length) that the unbounded `Int`/`List` of
+the model do not carry; `regex_table_typed` / `dissect_table_typed` derive them – and the
+distinctness of names – from how the matchers build their tables, so that no assumption on the size of
+group numbers remains: `GetMatch` is modelled with Go's wrap-around `idx * 2`.
 -/
 namespace Rare.C16
 
@@ -51,6 +58,23 @@ theorem escape_entries_decode (c : UInt8) (tail : Bytes)
   rw [esc1, if_pos (by rw [hl]; exact h.2), hl] at this
   exact this
 
+/-- **Exactly what `escape` emits**, for every byte string, well-formed UTF-8 or not: byte by byte, the
+entry of the source's table for the 34 bytes that have one, and the byte itself – unchanged, in
+place – for every other byte (so in particular for every byte ≥ 0x80 of an ill-formed capture). -/
+theorem escape_bytewise (s : Bytes) :
+    escape s = s.flatMap fun c =>
+      if c.toNat < Gen.C16.escapeLookup.length ∧ Gen.C16.escapeLookup.getD c.toNat [] ≠ []
+      then Gen.C16.escapeLookup.getD c.toNat [] else [c] := by
+  rw [escape_eq_flatMap, escape_table_is_source]
+  congr 1
+  funext c
+  unfold esc1 lookup
+  by_cases h : c.toNat < escapeLookup.length
+  · by_cases h2 : escapeLookup.getD c.toNat [] ≠ []
+    · simp only [h, if_true, h2, and_self, ne_eq, not_false_eq_true]
+    · simp [h]
+  · simp [h]
+
 /-! ### strings, keys, numbers -/
 
 /-- `escape` is exact for ALL byte strings: written between quotes it reads back as the original
@@ -73,6 +97,72 @@ theorem isNumeric_subset_json (s : Bytes) (h : isNumeric s = true) :
   have := isNumeric_parse s [] h endsNumber_nil
   simpa using this
 
+/-- **Same value, over ℚ.**  For every capture `isNumeric` accepts, the bare literal that is emitted
+is read by the RFC 8259 number grammar completely, and the rational number it denotes
+(`mantissa × 10^exponent`) is the rational number the capture denotes when read as a decimal numeral
+(integer digits plus fraction digits over a power of ten – `decimalRat`, defined without mantissa /
+exponent pairs). -/
+theorem numeric_same_rational (s : Bytes) (h : isNumeric s = true) :
+    ∃ v q, parseNumber s = some (v, []) ∧ v.toRat = some q ∧ decimalRat s = some q := by
+  have := isNumeric_rat s [] h endsNumber_nil
+  simpa using this
+
+/-- The integer-pair comparison used by `decodesTo` (and therefore by `json_valid_faithful`) is equality
+of rationals: a number member that decodes to a capture denotes the capture's decimal value. -/
+theorem decoded_number_same_rational (m e : Int) (capture : Bytes) (h : decodesTo (.num m e) capture = true) :
+    decimalRat capture = some (ratOf m e) :=
+  decodesTo_num_rat m e capture h
+
+/-- What is *not* a number for the writer, although a reader of decimals might take it for one:
+signs, exponents, a leading or trailing point, leading zeros.  These stay strings (and so decode to
+the exact capture). -/
+theorem numeric_shape (s : Bytes) (h : isNumeric s = true) :
+    ∃ ip fp, ip ≠ [] ∧ ip.all isDig = true ∧ fp.all isDig = true ∧ ¬ (1 < ip.length ∧ ip.head? = some 0x30) ∧
+      ((s = ip ∧ fp = []) ∨ (s = ip ++ 0x2e :: fp ∧ fp ≠ [])) :=
+  isNumeric_shape s h
+
+/-- **Booleans only for the exact ASCII spellings.**  The value is written as the bare literal `true`
+(resp. `false`) exactly when the capture is one of the 16 (resp. 32) spellings of that word with each
+letter in upper or lower ASCII case – nothing that merely case-folds to it under Unicode rules
+(`fal\u017fe`, Kelvin sign), nothing padded. -/
+theorem bool_only_ascii_spellings (val : Bytes) (b : Bool) :
+    inferredVal val = .bool b ↔ val ∈ spellings (if b then litTrue else litFalse) :=
+  inferredVal_bool_iff val b
+
+/-! ### group look-up and the name tables -/
+
+/-- `GetMatch` with Go's wrap-around arithmetic agrees with the specification of a capture for EVERY
+`int` group number – negative, in range, out of range, and from 2^62 on, where `idx * 2` wraps. -/
+theorem getMatch_every_int (indices : List Int) (line : Bytes) (idx : Int) (v : Bytes)
+    (hi : minInt64 ≤ idx ∧ idx ≤ maxInt64) (hl : (indices.length : Int) ≤ maxInt64)
+    (h : getMatch indices line idx = .ok v) : v = capture indices line idx :=
+  getMatch_ok indices line idx v hi hl h
+
+/-- Group numbers that cannot name a group read as empty, without a panic and without touching the
+index slice, whatever the wrapped product is. -/
+theorem getMatch_out_of_range (indices : List Int) (line : Bytes) (idx : Int)
+    (hi : minInt64 ≤ idx ∧ idx ≤ maxInt64) (hl : (indices.length : Int) ≤ maxInt64)
+    (h : idx < 0 ∨ (indices.length : Int) ≤ 2 * idx + 1) : getMatch indices line idx = .ok [] := by
+  unfold getMatch
+  simp only []
+  rw [if_pos ((getMatch_guard indices idx hi hl).mpr (by omega))]
+
+/-- The table `fastregex.createGroupNameTable` builds from `SubexpNames()`: names are distinct and
+every entry `(name, k)` is a real group: `0 ≤ k < len(SubexpNames())` and the `k`-th name is the
+non-empty `name`.  Every non-empty name of the expression has an entry. -/
+theorem regex_table_typed (names : List Bytes) :
+    ((regexNameTable names).map (·.1)).Nodup ∧
+    (∀ p ∈ regexNameTable names, 0 ≤ p.2 ∧ p.2 < names.length ∧ names[p.2.toNat]? = some p.1 ∧ p.1 ≠ []) ∧
+    (∀ n ∈ names, n ≠ [] → n ∈ (regexNameTable names).map (·.1)) :=
+  ⟨regexNameTable_nodup names, regexNameTable_entry names,
+   fun n hn hne => regexTableGo_covers names [] 0 n (Or.inr ⟨hn, hne⟩)⟩
+
+/-- The table `dissect.CompileEx` builds: distinct names, group numbers `1 … number of tokens`. -/
+theorem dissect_table_typed (tokens : List (Bytes × Bool)) (table : List (Bytes × Int))
+    (h : dissectNameTable tokens = .ok table) :
+    (table.map (·.1)).Nodup ∧ ∀ p ∈ table, 1 ≤ p.2 ∧ p.2 ≤ tokens.length :=
+  dissectNameTable_inv tokens table h
+
 /-! ### the views -/
 
 /-- **Valid and faithful.**  For every name table (as any iteration order `order` of a map with
@@ -82,33 +172,125 @@ parses as one JSON object, and its members are, in order, the named captures (a 
 name table) followed by the non-empty numbered captures, each with the right name and a value
 that decodes to the captured text. -/
 theorem json_valid_faithful (named numbered : Bool) (order : List (Bytes × Int)) (indices : List Int)
-    (line out : Bytes) (hnd : (order.map (·.1)).Nodup)
+    (line out : Bytes) (hty : GoTyped order indices) (hnd : (order.map (·.1)).Nodup)
     (h : json named numbered order indices line = .ok out) :
     ∃ ms es, parseObj out = some ms ∧
       es.Perm (if named then expectedNamed order indices line else []) ∧
+      es.Pairwise (fun a b => bytesLe a.1 b.1 = true) ∧
       membersDecode ms (es ++ (if numbered then expectedNumbered indices line else [])) = true := by
-  have ht := json_ok_text named numbered order indices line out h
-  refine ⟨_, (if named then namedMembers order indices line else []), by rw [ht]; exact parseObj_objText _ _, ?_, ?_⟩
+  have ht := json_ok_text named numbered order indices line out hty h
+  refine ⟨_, (if named then namedMembers order indices line else []), by rw [ht]; exact parseObj_objText _ _,
+    ?_, ?_, membersDecode_dec _⟩
   · cases named with
     | false => simp
-    | true =>
-      simp only [if_true, namedMembers, expectedNamed]
-      have hp := (sortNames_perm (order.map (·.1))).map
-        (fun n => (n, capture indices line (mapGet 0 order n)))
-      refine hp.trans ?_
-      rw [List.map_map]
-      apply List.Perm.of_eq
-      apply List.map_congr_left
-      intro p hp
-      simp [mapGet_mem 0 order p hnd hp]
-  · generalize (if named then namedMembers order indices line else []) ++
-      (if numbered then expectedNumbered indices line else []) = l
-    induction l with
-    | nil => simp [membersDecode]
-    | cons m l ih =>
-      have e : dec inferredR m = (m.1, inferredVal m.2) := rfl
-      simp only [List.map_cons, e, membersDecode, decodesTo_inferred m.2, ih]
-      simp
+    | true => simpa using namedMembers_perm order indices line hnd
+  · cases named with
+    | false => simp
+    | true => simpa using namedMembers_sorted order indices line
+
+/-- **Member sets and order of the four keys.**  `GetKey` maps `"."` to the named members only, `"#"`
+to the numbered members only, `".#"` and `"#."` – the same text for both spellings – to the named
+members followed by the numbered ones.  The member names are, in this order: the group names in
+ascending byte order, then the decimal numerals of the groups whose text is not empty, ascending
+(group 0, the whole match, included).  The numerals read back as the group numbers and are distinct,
+and so are the group names. -/
+theorem view_members (key : Bytes) (order : List (Bytes × Int)) (indices : List Int) (line out : Bytes)
+    (hty : GoTyped order indices) (hnd : (order.map (·.1)).Nodup)
+    (h : getKeyJson key order indices line = some (.ok out)) :
+    ∃ named numbered ms, viewFlags key = some (named, numbered) ∧ parseObj out = some ms ∧
+      ms.map (·.1) =
+        (if named then sortNames (order.map (·.1)) else []) ++
+        (if numbered then (expectedNumbered indices line).map (·.1) else []) ∧
+      (sortNames (order.map (·.1))).Perm (order.map (·.1)) ∧
+      (sortNames (order.map (·.1))).Pairwise (fun a b => bytesLe a b = true) ∧
+      (sortNames (order.map (·.1))).Nodup ∧
+      ((expectedNumbered indices line).map (·.1)).Nodup ∧
+      (∀ i : Nat, (natAscii i, capture indices line (i : Nat)) ∈ expectedNumbered indices line ↔
+        (i < indices.length / 2 ∧ capture indices line (i : Nat) ≠ [])) ∧
+      (∀ i : Nat, digVal (natAscii i) = i) := by
+  have key_cases : ∃ named numbered, viewFlags key = some (named, numbered) ∧
+      json named numbered order indices line = .ok out := by
+    unfold getKeyJson at h
+    unfold viewFlags
+    split at h
+    · exact ⟨true, false, by simp [*], by simpa using h⟩
+    · split at h
+      · exact ⟨false, true, by simp [*], by simpa using h⟩
+      · split at h
+        · exact ⟨true, true, by simp [*], by simpa using h⟩
+        · cases h
+  obtain ⟨named, numbered, hf, hj⟩ := key_cases
+  have ht := json_ok_text named numbered order indices line out hty hj
+  refine ⟨named, numbered, _, hf, by rw [ht]; exact parseObj_objText _ _, ?_, sortNames_perm _, sortNames_sorted _,
+    (sortNames_perm _).nodup_iff.mpr hnd, numbered_names_nodup indices line, ?_, digVal_natAscii⟩
+  · rw [dec_names]; exact viewMembers_names named numbered order indices line
+  · intro i
+    simp only [expectedNumbered, List.mem_filterMap, List.mem_range]
+    constructor
+    · rintro ⟨j, hj, e⟩
+      split at e
+      · cases e
+      · simp only [Option.some.injEq, Prod.mk.injEq] at e
+        have := natAscii_inj _ _ e.1; subst this
+        exact ⟨hj, by assumption⟩
+    · rintro ⟨hi, hne⟩
+      exact ⟨i, hi, by simp [hne]⟩
+
+/-- `".#"` and `"#."` are the same view; `"."`, `"#"`, `".#"`, `"#."` are the only JSON keys. -/
+theorem view_keys (key : Bytes) (order : List (Bytes × Int)) (indices : List Int) (line : Bytes) :
+    getKeyJson key order indices line =
+      (viewFlags key).map (fun f => json f.1 f.2 order indices line) ∧
+    getKeyJson [0x2e, 0x23] order indices line = getKeyJson [0x23, 0x2e] order indices line ∧
+    (viewFlags key ≠ none ↔ key = [0x2e] ∨ key = [0x23] ∨ key = [0x2e, 0x23] ∨ key = [0x23, 0x2e]) := by
+  refine ⟨?_, by simp [getKeyJson], ?_⟩
+  · unfold getKeyJson viewFlags
+    split
+    · rfl
+    · split
+      · rfl
+      · split <;> rfl
+  · unfold viewFlags
+    constructor
+    · intro h
+      split at h
+      · left; assumption
+      · split at h
+        · right; left; assumption
+        · split at h
+          · rename_i hk; right; right; exact hk
+          · exact absurd rfl h
+    · rintro (h | h | h | h) <;> subst h <;> decide
+
+/-- **Duplicate member names.**  Within the named part and within the numbered part names are distinct
+(`view_members`); in `{.#}` a name is repeated exactly when a group is *named* by the decimal numeral
+of a group with non-empty text (Go's regexp accepts `(?P<1>…)`).  RFC 8259 allows this
+syntactically (names SHOULD be unique); the text still parses and both members decode to their
+captures. -/
+theorem view_names_nodup_iff (order : List (Bytes × Int)) (indices : List Int) (line : Bytes)
+    (hnd : (order.map (·.1)).Nodup) :
+    ((viewMembers true true order indices line).map (·.1)).Nodup ↔
+      ∀ p ∈ order, ∀ i : Nat, i < indices.length / 2 → capture indices line (i : Nat) ≠ [] → p.1 ≠ natAscii i := by
+  rw [viewMembers_names]
+  simp only [if_true]
+  rw [List.nodup_append]
+  have h1 : (sortNames (order.map (·.1))).Nodup := (sortNames_perm _).nodup_iff.mpr hnd
+  have h2 := numbered_names_nodup indices line
+  constructor
+  · rintro ⟨_, _, hd⟩ p hp i hi hne e
+    refine hd p.1 ((sortNames_perm _).mem_iff.mpr (List.mem_map_of_mem hp)) (natAscii i) ?_ e
+    simp only [expectedNumbered, List.mem_map, List.mem_filterMap, List.mem_range]
+    exact ⟨(natAscii i, capture indices line (i : Nat)), ⟨i, hi, by simp [hne]⟩, rfl⟩
+  · intro h
+    refine ⟨h1, h2, ?_⟩
+    intro a ha b hb e
+    subst e
+    obtain ⟨p, hp, e⟩ := List.mem_map.mp ((sortNames_perm _).mem_iff.mp ha)
+    simp only [expectedNumbered, List.mem_map, List.mem_filterMap, List.mem_range] at hb
+    obtain ⟨m, ⟨i, hi, hm⟩, e2⟩ := hb
+    split at hm
+    · cases hm
+    · cases hm
+      exact h p hp i hi (by assumption) (by rw [e, ← e2])
 
 /-- **Well-formed UTF-8.**  `parseObj` is byte level; RFC 8259 §8.1 additionally wants the text to be
 UTF-8.  That is inherited exactly from the input: when the group names and every captured text are
@@ -116,10 +298,98 @@ well-formed UTF-8 (RFC 3629 DFA `validUtf8`), so is the whole text.  (For captur
 valid UTF-8 the bytes are copied unchanged – `escape_roundtrip` – and the text is as ill-formed as
 the capture; `encoding/json` reads such bytes as U+FFFD.) -/
 theorem json_utf8 (named numbered : Bool) (order : List (Bytes × Int)) (indices : List Int)
-    (line out : Bytes) (h : json named numbered order indices line = .ok out)
+    (line out : Bytes) (hty : GoTyped order indices) (h : json named numbered order indices line = .ok out)
     (hk : ∀ p ∈ order, validUtf8 p.1 = true)
     (hv : ∀ i, validUtf8 (capture indices line i) = true) : validUtf8 out = true :=
-  json_text_utf8 named numbered order indices line out h hk hv
+  json_text_utf8 named numbered order indices line out hty h hk hv
+
+/-- **Ill-formed UTF-8 comes from the captures only, and is never hidden.**  The text is well-formed
+UTF-8 if AND ONLY IF every group name written and every captured text written is. -/
+theorem json_utf8_iff (named numbered : Bool) (order : List (Bytes × Int)) (indices : List Int)
+    (line out : Bytes) (hty : GoTyped order indices) (hnd : (order.map (·.1)).Nodup)
+    (h : json named numbered order indices line = .ok out) :
+    validUtf8 out = true ↔
+      ((named = true → ∀ p ∈ order, validUtf8 p.1 = true ∧ validUtf8 (capture indices line p.2) = true) ∧
+       (numbered = true → ∀ i : Nat, validUtf8 (capture indices line (i : Nat)) = true)) := by
+  rw [json_ok_text named numbered order indices line out hty h, valid_objText_eq]
+  exact viewMembers_all_valid named numbered order indices line hnd
+
+/-- **Valid JSON modulo the captures' own ill-formed bytes.**  `json_valid_faithful` already holds for
+arbitrary bytes under the byte-level grammar (ill-formed bytes are string content and are returned
+as they are).  For a reader that insists on UTF-8 and substitutes U+FFFD for every ill-formed byte
+(`sanitize`: what `encoding/json`, Go's `range`, and WHATWG decoders do): the substituted text is
+well-formed UTF-8, is unchanged when the text was well-formed, parses under the same grammar, and
+its members are – in the same order, none lost or merged – the substituted names with values that
+decode to the substituted captures.  So the only difference to a fully valid document is the
+U+FFFD a reader sees in place of each ill-formed byte of a capture. -/
+theorem json_sanitized (named numbered : Bool) (order : List (Bytes × Int)) (indices : List Int)
+    (line out : Bytes) (hty : GoTyped order indices) (hnd : (order.map (·.1)).Nodup)
+    (h : json named numbered order indices line = .ok out) :
+    validUtf8 (sanitize out) = true ∧ (validUtf8 out = true → sanitize out = out) ∧
+    ∃ ms es, parseObj (sanitize out) = some ms ∧
+      es.Perm (if named then expectedNamed order indices line else []) ∧
+      membersDecode ms ((es ++ (if numbered then expectedNumbered indices line else [])).map
+        fun m => (sanitize m.1, sanitize m.2)) = true := by
+  have ht := json_ok_text named numbered order indices line out hty h
+  refine ⟨valid_sanitize out, sanitize_valid out,
+    ((viewMembers named numbered order indices line).map san2).map (dec inferredR),
+    (if named then namedMembers order indices line else []), ?_, ?_, ?_⟩
+  · rw [ht, objText_sanitize]; exact parseObj_objText _ _
+  · cases named with
+    | false => simp
+    | true => simpa using namedMembers_perm order indices line hnd
+  · exact membersDecode_dec _
+
+/-- The same three theorems for a table as the regex wrapper builds it from `SubexpNames()`, in any
+iteration order `σ` of the map: no hypothesis on group numbers or on distinctness is left. -/
+theorem json_valid_faithful_regex (named numbered : Bool) (names : List Bytes) (σ : List (Bytes × Int))
+    (indices : List Int) (line out : Bytes) (hσ : σ.Perm (regexNameTable names))
+    (hn : (names.length : Int) ≤ maxInt64) (hl : (indices.length : Int) ≤ maxInt64)
+    (h : json named numbered σ indices line = .ok out) :
+    ∃ ms es, parseObj out = some ms ∧
+      es.Perm (if named then expectedNamed (regexNameTable names) indices line else []) ∧
+      es.Pairwise (fun a b => bytesLe a.1 b.1 = true) ∧
+      membersDecode ms (es ++ (if numbered then expectedNumbered indices line else [])) = true := by
+  obtain ⟨hty, hnd⟩ := regex_typed names σ indices hσ hn hl
+  obtain ⟨ms, es, h1, h2, h3, h4⟩ := json_valid_faithful named numbered σ indices line out hty hnd h
+  refine ⟨ms, es, h1, ?_, h3, h4⟩
+  cases named with
+  | false => simpa using h2
+  | true =>
+    simp only [if_true] at h2 ⊢
+    exact h2.trans (hσ.map _)
+
+/-- … and as `dissect.CompileEx` builds it. -/
+theorem json_valid_faithful_dissect (named numbered : Bool) (tokens : List (Bytes × Bool))
+    (table σ : List (Bytes × Int)) (indices : List Int) (line out : Bytes)
+    (ht : dissectNameTable tokens = .ok table) (hσ : σ.Perm table)
+    (hn : (tokens.length : Int) ≤ maxInt64) (hl : (indices.length : Int) ≤ maxInt64)
+    (h : json named numbered σ indices line = .ok out) :
+    ∃ ms es, parseObj out = some ms ∧
+      es.Perm (if named then expectedNamed table indices line else []) ∧
+      es.Pairwise (fun a b => bytesLe a.1 b.1 = true) ∧
+      membersDecode ms (es ++ (if numbered then expectedNumbered indices line else [])) = true := by
+  obtain ⟨hty, hnd⟩ := dissect_typed tokens table σ indices ht hσ hn hl
+  obtain ⟨ms, es, h1, h2, h3, h4⟩ := json_valid_faithful named numbered σ indices line out hty hnd h
+  refine ⟨ms, es, h1, ?_, h3, h4⟩
+  cases named with
+  | false => simpa using h2
+  | true =>
+    simp only [if_true] at h2 ⊢
+    exact h2.trans (hσ.map _)
+
+/-- **Same match ⇒ same text**, for tables as the matchers build them: any two iteration orders
+`σ₁ σ₂` of the regex wrapper's map give the same outcome. -/
+theorem json_deterministic_regex (named numbered : Bool) (names : List Bytes) (σ₁ σ₂ : List (Bytes × Int))
+    (indices : List Int) (line : Bytes) (h1 : σ₁.Perm (regexNameTable names)) (h2 : σ₂.Perm (regexNameTable names)) :
+    json named numbered σ₁ indices line = json named numbered σ₂ indices line := by
+  have hnd : (σ₁.map (·.1)).Nodup := (h1.map (·.1)).nodup_iff.mpr (regexNameTable_nodup names)
+  have hp := h1.trans h2.symm
+  have e1 : sortNames (σ₁.map (·.1)) = sortNames (σ₂.map (·.1)) := sortNames_eq_of_perm _ _ (hp.map _)
+  have e2 : mapGet (0 : Int) σ₁ = mapGet 0 σ₂ := mapGet_perm 0 σ₁ σ₂ hp hnd
+  have e3 : namedStep σ₁ indices line = namedStep σ₂ indices line := by
+    funext jb name; simp [namedStep, e2]
+  simp [json, e1, e3]
 
 /-- **No panic.**  When the index slice fits the line (what every matcher returns: each group
 absent or a range inside the line) `json` always returns a text – for any name table, including
@@ -215,5 +485,60 @@ example : validUtf8 [0x68, 0xc3, 0xa9, 0xe6, 0x97, 0xa5, 0xf0, 0x9f, 0x98, 0x80]
 
 /-- the slice-bounds panic is reachable (so `= .ok out` is a real hypothesis) -/
 example : (json false true [] [0, 9] (lit "abc")).toBool = false := by decide
+
+/-- `GoTyped` and distinct names hold of the table above -/
+example : GoTyped [(lit "b\"", 2), (lit "a", 1)] [0, 7, 0, 3, 4, 7] :=
+  ⟨by intro p hp; simp at hp; rcases hp with h | h <;> subst h <;> decide, by decide⟩
+
+/-- the tables as built: `(?P<a>…)(…)(?P<b>…)(?P<a>…)` – a repeated name keeps its last group – and a
+dissect pattern with a skipped token; a repeated dissect key is a compile error -/
+example : regexNameTable [[], lit "a", [], lit "b", lit "a"] = [(lit "a", 4), (lit "b", 3)] := by decide
+example : (dissectNameTable [(lit "x", false), (lit "", true), (lit "y\"", false)]).toOption
+    = some [(lit "x", 1), (lit "y\"", 2)] := by decide
+example : (dissectNameTable [(lit "x", false), (lit "x", false)]).toBool = false := by decide
+
+/-- huge group numbers: from 2^62 on `idx * 2` wraps; the answer is the empty text, as for any group
+that does not exist (with unbounded arithmetic `4611686018427387904 * 2` would not be negative) -/
+example : (getMatch [0, 3] (lit "abc") 4611686018427387904).toOption = some [] ∧
+    (getMatch [0, 3] (lit "abc") 9223372036854775807).toOption = some [] ∧
+    (getMatch [0, 3] (lit "abc") (-9223372036854775808)).toOption = some [] ∧
+    (getMatch [0, 3] (lit "abc") 0).toOption = some (lit "abc") := by decide
+
+/-- the four keys on one match: member sets and order -/
+example :
+    (getKeyJson (lit ".") [(lit "z", 1), (lit "b", 2)] [0, 3, 0, 1, 2, 3, -1, -1] (lit "x y")).map Except.toOption
+      = some (some (lit "{\"b\": \"y\", \"z\": \"x\"}")) ∧
+    (getKeyJson (lit "#") [(lit "z", 1), (lit "b", 2)] [0, 3, 0, 1, 2, 3, -1, -1] (lit "x y")).map Except.toOption
+      = some (some (lit "{\"0\": \"x y\", \"1\": \"x\", \"2\": \"y\"}")) ∧
+    (getKeyJson (lit "#.") [(lit "z", 1), (lit "b", 2)] [0, 3, 0, 1, 2, 3, -1, -1] (lit "x y")).map Except.toOption
+      = some (some (lit "{\"b\": \"y\", \"z\": \"x\", \"0\": \"x y\", \"1\": \"x\", \"2\": \"y\"}")) ∧
+    (getKeyJson (lit "src") [] [0, 1] (lit "x")).isNone = true := by decide
+
+/-- a repeated member name is possible: `(b)(?P<1>a)` on `ba` -/
+example : (json true true [(lit "1", 2)] [0, 2, 0, 1, 1, 2] (lit "ba")).toOption
+    = some (lit "{\"1\": \"a\", \"0\": \"ba\", \"1\": \"b\", \"2\": \"a\"}") := by decide
+
+/-- numbers: what is and is not numeric for the writer -/
+example : isNumeric (lit "0") = true ∧ isNumeric (lit "0.50") = true ∧ isNumeric (lit "12345678901234567890123") = true ∧
+    isNumeric (lit "-0") = false ∧ isNumeric (lit "+1") = false ∧ isNumeric (lit ".5") = false ∧
+    isNumeric (lit "5.") = false ∧ isNumeric (lit "1e400") = false ∧ isNumeric (lit "1E5") = false ∧
+    isNumeric (lit "00") = false ∧ isNumeric (lit "") = false ∧ isNumeric (lit "1.2.3") = false := by decide
+
+example : parseNumber (lit "10.250") = some (.num 10250 (-3), []) ∧ decimalValue (lit "10.250") = some (10250, -3) := by
+  decide
+
+/-- booleans: the spellings, and what is not one -/
+example : (spellings litTrue).length = 16 ∧ (spellings litFalse).length = 32 ∧
+    lit "tRuE" ∈ spellings litTrue ∧ lit "FALSE" ∈ spellings litFalse ∧
+    [0x66, 0x61, 0x6c, 0xc5, 0xbf, 0x65] ∉ spellings litFalse ∧ lit " true" ∉ spellings litTrue := by decide
+
+/-- ill-formed captures: the bytes are copied, the text is not UTF-8, and with U+FFFD substituted it is
+the text of the substituted capture -/
+example : (json false true [] [0, 3] [0x61, 0xff, 0x22]).toOption
+      = some (lit "{\"0\": \"a" ++ [0xff] ++ lit "\\\"\"}") ∧
+    validUtf8 (lit "{\"0\": \"a" ++ [0xff] ++ lit "\\\"\"}") = false ∧
+    sanitize (lit "{\"0\": \"a" ++ [0xff] ++ lit "\\\"\"}") = lit "{\"0\": \"a" ++ fffd ++ lit "\\\"\"}" ∧
+    sanitize [0x61, 0xe2, 0x82, 0x41, 0xc3, 0xa9, 0xed, 0xa0, 0x80]
+      = [0x61] ++ fffd ++ fffd ++ [0x41, 0xc3, 0xa9] ++ fffd ++ fffd ++ fffd := by decide
 
 end Rare.C16
